@@ -34,7 +34,7 @@ CHECKS["C04"] = {
          "shards": {"quick": 2, "thorough": 4}},
         {"name": "sm3-huge", "pkg": "sm3", "run": "TestVX_C04Huge", "public_files": ["sm3/C04huge_pub_test.go"],
          "shards": {"quick": 2, "thorough": 3}},
-        {"name": "cold-start", "pkg": "sm3", "run": "TestVX_C04Cold", "public_files": ["sm3/Cold_pub_test.go"], "shards": 4},
+        {"name": "cold-start", "pkg": "sm3", "run": "TestVX_C04Cold", "public_files": ["sm3/Cold_pub_test.go"], "shards": 2, "exclusive": True},
     ],
     "deadline": {"quick": 200, "thorough": 3000},
 }
@@ -77,7 +77,7 @@ CHECKS["C15"] = {
          "public_files": [SM2I + "common_pub_test.go", SM2I + "C14_pub_test.go", SM2I + "C15_pub_test.go"], "shards": 4},
         {"name": "point-arith-public", "pkg": "sm2/internal", "run": "TestVX_C15_PublicArith",
          "public_files": [SM2I + "common_pub_test.go", SM2I + "C14_pub_test.go", SM2I + "C15_pub_test.go"], "shards": 8},
-        {"name": "cold-start", "pkg": "sm2/internal", "run": "TestVX_C15Cold", "public_files": [SM2I + "common_pub_test.go", SM2I + "Cold_pub_test.go"], "shards": 8},
+        {"name": "cold-start", "pkg": "sm2/internal", "run": "TestVX_C15Cold", "public_files": [SM2I + "common_pub_test.go", SM2I + "Cold_pub_test.go"], "shards": 2, "exclusive": True},
     ],
     "deadline": {"quick": 150, "thorough": 1200},
 }
@@ -160,9 +160,9 @@ CHECKS["C05"] = {
         {"name": "block-public", "pkg": "sm4", "run": "TestVX_C05_Public", "public_files": SM4P + ["sm4/C05_pub_test.go"], "shards": 4},
         {"name": "block-public-generic", "variant": "generic", "pkg": "sm4", "run": "TestVX_C05_Public", "public_files": SM4P + ["sm4/C05_pub_test.go"],
          "shards": 4, "env": {"VX_PART": "block-public-generic"}},
-        {"name": "cold-start", "pkg": "sm4", "run": "TestVX_C05Cold", "public_files": SM4P + ["sm4/Cold_pub_test.go"], "shards": 8, "env": {"VX_PART": "cold-start"}},
+        {"name": "cold-start", "pkg": "sm4", "run": "TestVX_C05Cold", "public_files": SM4P + ["sm4/Cold_pub_test.go"], "shards": 2, "exclusive": True, "env": {"VX_PART": "cold-start"}},
         {"name": "cold-start-generic", "variant": "generic", "pkg": "sm4", "run": "TestVX_C05Cold", "public_files": SM4P + ["sm4/Cold_pub_test.go"],
-         "shards": 8, "env": {"VX_PART": "cold-start-generic"}},
+         "shards": 2, "exclusive": True, "env": {"VX_PART": "cold-start-generic"}},
     ],
     "prepare": {"generic": [["python3", "{verif}/tools/prep_generic.py", "{repo}"]]},
     "deadline": {"quick": 150, "thorough": 2400},
